@@ -227,6 +227,14 @@ def nondet_calls(pr):
                     short.startswith("random.") or short.startswith("secrets."):
                 if (m.name, short) not in allowed_sites:
                     bad.append(f"{short}:{c.lineno}")
+            # the machine's time zone / locale: astimezone() without a zone, naive fromtimestamp, the time module's local clock functions
+            if isinstance(c.func, ast.Attribute) and c.func.attr == "astimezone" and not c.args and not c.keywords:
+                bad.append(f"astimezone() without a time zone (local zone of the machine):{c.lineno}")
+            if isinstance(c.func, ast.Attribute) and c.func.attr == "fromtimestamp" and len(c.args) + len(c.keywords) < 2:
+                bad.append(f"fromtimestamp() without a time zone:{c.lineno}")
+            if short in ("time.localtime", "time.mktime", "time.tzset", "time.strftime", "time.ctime", "time.asctime", "locale.getlocale", "locale.getdefaultlocale", "locale.setlocale",
+                         "locale.getpreferredencoding", "socket.gethostname", "getpass.getuser", "os.getlogin", "os.uname", "os.cpu_count"):
+                bad.append(f"{short}:{c.lineno}")
             if short == "hash":
                 f = next((x for x in ast.walk(m.tree) if isinstance(x, ast.FunctionDef) and any(y is c for y in ast.walk(x))), None)
                 if f is None or f.name != "__hash__":
